@@ -113,3 +113,20 @@ void h_where(void){
   OBS(out);
   REACHED();
 }
+
+/* diagflat(fixed int[3], compile-time k): KCT in {-2,-1,0,1,2} per-query constant, data and index symbolic */
+#ifndef KCT
+#define KCT 0
+#endif
+void h_diagflat_ct(void){
+  u64 idx[4], os[4] = {0}, od = 0, ex[4] = {0}; u32 data[3], out = 0; for (int i = 0; i < 3; i++) data[i] = in_any32();
+  i32 k = KCT; u64 n = 3 + (u64)(k < 0 ? -k : k); ex[0] = n; ex[1] = n;
+  idx[0] = in_u64(0, 4); idx[1] = in_u64(0, 4); ASSUME(idx[0] < n && idx[1] < n);
+  int r = KCT == -2 ? k_diagflat_ct_m2(data, idx, 2, os, &od, &out) : KCT == -1 ? k_diagflat_ct_m1(data, idx, 2, os, &od, &out) : KCT == 0 ? k_diagflat_ct_0(data, idx, 2, os, &od, &out)
+        : KCT == 1 ? k_diagflat_ct_p1(data, idx, 2, os, &od, &out) : k_diagflat_ct_p2(data, idx, 2, os, &od, &out);
+  ASSERT(r == 1, "diagflat accepted");
+  ASSERT(od == 2 && os[0] == n && os[1] == n, "shape == (size+|k|, size+|k|) also when k is a compile-time constant");
+  i64 row = (i64)idx[0], col = (i64)idx[1];
+  ASSERT(out == (col == row + k ? data[k >= 0 ? row : col] : 0), "k-th diagonal holds a.flat, zero elsewhere");
+  OBS(out); REACHED();
+}
